@@ -36,6 +36,7 @@ OBLIGATIONS = [
     (P + "epoll_reused_fd_is_registered", "close before the loop's DEL, cancel processed (DEL fails), number re-used, wait armed: it is registered with the kernel, without error"),
     (P + "device_error_path_completes_once", "generated: dont_block posts once and returns false on error; all six async_* entry points are guarded by it; every branch after the guard posts xor arms exactly once"),
     (P + "bad_descriptor_completes_exactly_once", "hence an async_* call on an unusable descriptor schedules its handler exactly once"),
+    (P + "completion_functor_paths_complete_once", "generated per-path counts of reader_some/writer_some/async_connector/reader_all/writer_all/async_acceptor: every path calls the handler once xor re-arms once"),
     (P + "due_timer_queued", "run_one's expiry step queues every timer whose deadline <= now with success"),
     (P + "job_conservation", "pool: each posted job id is in exactly one of queue | held by a worker | ran | cancelled"),
     (P + "job_at_most_once", "pool: for all histories, a job runs at most once"),
@@ -248,6 +249,96 @@ def gen_loop_case(rng, flavour):
     return f"L {hdr} {nt} {ptxt} S {' '.join(script)}"
 
 
+def gen_pending_case(rng):
+    """operations that are really pending when they are cancelled / closed / completed: TCP connects (to a listener that
+    drops SYNs, or to one that answers), accepts, async_read of several bytes, async_write into a full socket"""
+    ns, nc, na, nt = rng.choice((1, 2)), rng.choice((1, 2)), 1, 1
+    socks = list(range(ns))
+    conns = list(range(ns, ns + nc))
+    accs = list(range(ns + nc, ns + nc + na))
+    progs = [[], ["post:0"]]
+    script = ["start"]
+    T = 0
+    copen = {c: False for c in conns}
+    cwait = {c: False for c in conns}      # connector functor possibly armed
+    rd = {f: False for f in socks + accs}  # readable slot possibly armed
+    wr = {f: False for f in socks}
+    wfull = {f: False for f in socks}
+    closed = set()
+    for _ in range(rng.randrange(5, 16)):
+        r = rng.random()
+        p = rng.randrange(2)
+        if r < 0.22:
+            c = rng.choice(conns)
+            if not copen[c]:
+                script.append(f"{rng.choice(('xp', 'xp', 'xg'))}:{c}:{p}")
+                copen[c] = cwait[c] = True
+            else:
+                op = rng.choice(("ca", "cl", "step"))
+                if op == "step":
+                    script.append(f"step:{c}")
+                else:
+                    script.append(f"{op}:{c}")
+                    if op == "cl":
+                        copen[c] = False
+                    script.append("step")
+                cwait[c] = False
+        elif r < 0.4:
+            a = rng.choice(accs)
+            op = rng.choice(("xq", "xq", "pw", "ca", "step", "cl" if rng.random() < 0.2 else "pw"))
+            if op == "xq":
+                if rd[a]:
+                    script += [f"ca:{a}", "step"]
+                script.append(f"xq:{a}:{p}")
+                rd[a] = True
+            elif op == "step":
+                script.append(f"step:{a}")
+                rd[a] = False if a in closed else rd[a]
+            else:
+                script.append(f"{op}:{a}")
+                if op in ("ca", "cl"):
+                    script.append("step")
+                    rd[a] = False
+                    if op == "cl":
+                        closed.add(a)
+        elif r < 0.7:
+            f = rng.choice(socks)
+            op = rng.choice(("xR", "xR", "xW", "pw", "pw", "ca", "step", "step"))
+            if op == "xR":
+                if rd[f]:
+                    script += [f"ca:{f}", "step"]
+                    wr[f] = False
+                script.append(f"xR:{f}:{rng.choice((1, 2, 3))}:{p}")
+                rd[f] = True
+            elif op == "xW":
+                if not wr[f] and not wfull[f]:
+                    script.append(f"xW:{f}:{p}")
+                    wr[f] = wfull[f] = True
+            elif op == "ca":
+                script += [f"ca:{f}", "step"]
+                rd[f] = wr[f] = False
+            elif op == "step":
+                script.append(f"step:{f}")
+            else:
+                script.append(f"pw:{f}")
+        elif r < 0.8:
+            script.append(f"post:{p}")
+        elif r < 0.9:
+            T += rng.choice((1, 5))
+            script += [f"tm:0:{T + rng.choice((0, 3))}:0", f"T:{T}"]
+        else:
+            script.append("step")
+    # an async_read that is still waiting keeps its slot: steps may or may not have completed it; the final phase
+    # cancels / closes everything
+    script.append("tc:0")
+    for f in socks + conns + accs:
+        script.append(f"cl:{f}")
+    script.append("T:1000000")
+    script += ["step"] * 6
+    ptxt = " ".join(f"P{i}={','.join(pp) if pp else '-'}" for i, pp in enumerate(progs))
+    return f"L {ns}+0+{nc}+{na} {nt} {ptxt} S {' '.join(script)}"
+
+
 def is_final_case(case):
     """the loop keeps running to the end (no stop/reset anywhere): exactly-once is demanded"""
     w = case.split()
@@ -389,11 +480,11 @@ def main():
         corpus = []
     else:
         rng = c.rng
-        nloop = 3500 if thorough else 364
+        nloop = 4000 if thorough else 416
         cases = list(corpus)
         for k in range(nloop):
-            fl = ("final", "final", "free", "free", "stop", "periodic", "reuse")[k % 7]
-            cases.append(gen_loop_case(rng, fl))
+            fl = ("final", "final", "free", "free", "stop", "periodic", "reuse", "pending")[k % 8]
+            cases.append(gen_pending_case(rng) if fl == "pending" else gen_loop_case(rng, fl))
         for k in range(400 if thorough else 60):
             cases.append(gen_pool_case(rng, with_stop=False))
         for k in range(12 if thorough else 3):
